@@ -3,20 +3,36 @@
 (* C09: the changes of a patch file, and the patch files of a command      *)
 (* line, are applied strictly in order, each to what the previous left.    *)
 (*                                                                         *)
-(* Abstract file: [pkg, body] - a package name and the sequence of calls   *)
-(* that make up the code; a call is [f, args] with one or two literal      *)
-(* arguments.  A change (rule) is                                          *)
+(* Abstract file: [pkg, body] - a package name and the sequence of the     *)
+(* calls that make up the code, one TERM per statement.  A term is a record*)
+(* [f, n, args]: a call of f with argument terms, or a leaf - the integer  *)
+(* literal n (f = "lit"; n = 0 stands for the identifier x) or another     *)
+(* identifier (f = "id:<name>").  Terms nest, so a change can rewrite code *)
+(* INSIDE a place that a later change compares or binds.                   *)
+(* A change (rule) is                                                      *)
 (*   [t |-> "ren", from, to, guard, newpkg]   '-from(x)' '+to(x)' with an  *)
 (*        expression metavariable x: rename every one-argument call of     *)
 (*        `from`, keeping its argument; guard: package clause on a context *)
 (*        line ("" = none); newpkg: '-package guard' / '+package newpkg'   *)
 (*   [t |-> "split", from, to, ...]   '-from(x, y)' '+pair(to(x), to(y))': *)
-(*        every two-argument call of `from` becomes two one-argument calls *)
-(*        of `to` (code that a later change has to bind site by site)      *)
+(*        every two-argument call of `from` becomes a call of pair with    *)
+(*        two one-argument calls of `to` (code that a later change has to  *)
+(*        bind site by site, below the top of the statement)               *)
+(*   [t |-> "dup", from, to, ...]     '-from(y, y)' '+to(y)': two-argument *)
+(*        calls of `from` whose arguments are the same code                *)
+(*   [t |-> "lit2", from, to, ...]    '-from(x, 1)' '+to(x)': two-argument *)
+(*        calls of `from` whose second argument is the literal 1           *)
 (*   [t |-> "renlit", from, to, ...]  '-from(x)' '+to(x)' with x undeclared: *)
-(*        only calls whose argument is the identifier x (argument 0)       *)
+(*        only calls whose argument is the identifier x (literal 0)        *)
+(*   [t |-> "sren", from, to, ...]    '-defer from(x)' '+defer to(x)': a   *)
+(*        STATEMENT pattern, it sees only the calls that are statements    *)
 (*   [t |-> "fail", from, guard, ...]         matches calls of `from`, but *)
 (*        its replacement cannot be built (the step fails)                 *)
+(* Expression patterns apply at every depth.  The outermost instance is    *)
+(* rewritten and what it bound is reproduced as it is; sequences in which  *)
+(* an instance lies inside an instance of the same change are outside the  *)
+(* universe (WellFormedRun) - what happens to the inner one is C01's and   *)
+(* C03's business, not the order of changes.                               *)
 (*                                                                         *)
 (* P-layer: Chain - one run per change, each starting from the file the    *)
 (* previous run produced; if a step fails the result is the failure and    *)
@@ -31,48 +47,67 @@ EXTENDS Naturals, Sequences, FiniteSets, TLC, SequencesExt
 CONSTANTS Atoms,       \* call names that occur in files
           MaxChanges, MaxLen,
           Pkgs,        \* package names
-          Lib          \* "1": model the library loop (continues after a failing step)
+          Lib,         \* "1": model the library loop (continues after a failing step)
+          Nested       \* "1": the universe of the design check has calls nested in calls
+
+Lit(n) == [f |-> "lit", n |-> n, args |-> <<>>]
+Call(a, as) == [f |-> a, n |-> 0, args |-> as]
+IsLeaf(t) == Len(t.args) = 0     \* (a call without arguments has nothing a change of this universe could bind)
 
 Targets == Atoms \cup {"z"}
+ExprRule(k) == {[t |-> k, from |-> f, to |-> x, guard |-> "", newpkg |-> ""] : f \in Atoms, x \in Targets}
 Rules ==
   {[t |-> "ren", from |-> f, to |-> x, guard |-> g, newpkg |-> n] :
       f \in Atoms, x \in Targets, g \in Pkgs \cup {""}, n \in Pkgs \cup {""}}
   \cup {[t |-> "fail", from |-> f, to |-> f, guard |-> g, newpkg |-> ""] : f \in Atoms, g \in Pkgs \cup {""}}
-  \cup {[t |-> "split", from |-> f, to |-> x, guard |-> "", newpkg |-> ""] : f \in Atoms, x \in Targets}
+  \cup ExprRule("split") \cup ExprRule("dup") \cup ExprRule("lit2") \cup ExprRule("renlit")
   \* the same rename written as a STATEMENT pattern ('-defer from(x)' '+defer to(x)': the file's calls are
   \* deferred calls then); statement patterns go through the elision machinery for statement lists
-  \cup {[t |-> "sren", from |-> f, to |-> x, guard |-> "", newpkg |-> ""] : f \in Atoms, x \in Targets}
-  \* '-from(x)' '+to(x)' WITHOUT declaring x: x is the plain identifier x, so only calls whose
-  \* argument is that identifier are renamed (argument 0 stands for the identifier x)
-  \cup {[t |-> "renlit", from |-> f, to |-> x, guard |-> "", newpkg |-> ""] : f \in Atoms, x \in Targets}
-WellFormedRule(r) == /\ (r.t \in {"ren", "renlit", "sren"} => r.from # r.to)
+  \cup ExprRule("sren")
+WellFormedRule(r) == /\ (r.t \in {"ren", "renlit", "sren", "dup", "lit2"} => r.from # r.to)
                      /\ (r.newpkg # "" => (r.guard # "" /\ r.newpkg # r.guard))   \* a rename is written '-package g' '+package n'
-Calls == {[f |-> a, args |-> <<v>>] : a \in Atoms, v \in {0, 1, 2}} \cup {[f |-> a, args |-> <<1, 2>>] : a \in Atoms}
-\* a statement-level rename only sees calls that are statements themselves: the calls that `split`
-\* nests inside pair(...) are not, so the two kinds of rule are not mixed in one sequence
-WellFormedSeq(rs) == /\ \A i \in 1..Len(rs) : WellFormedRule(rs[i])
-                     /\ ~((\E i \in 1..Len(rs) : rs[i].t = "sren") /\ (\E i \in 1..Len(rs) : rs[i].t = "split"))
+WellFormedSeq(rs) == \A i \in 1..Len(rs) : WellFormedRule(rs[i])
+
+\* the bounded universe of the design check: statements are calls of one or two leaves and, when Nested = "1",
+\* calls of one call of a leaf
+Leaves == {Lit(0), Lit(1), Lit(2)}
+FlatCalls == {Call(a, <<v>>) : a \in Atoms, v \in Leaves} \cup {Call(a, <<Lit(1), v>>) : a \in Atoms, v \in {Lit(1), Lit(2)}}
+Calls == FlatCalls \cup (IF Nested = "1" THEN {Call(a, <<Call(b, <<Lit(1)>>)>>) : a, b \in Atoms} ELSE {})
 Files == [pkg : Pkgs, body : UNION {[1..n -> Calls] : n \in 1..MaxLen}]
 
 SeqToSet(s) == {s[i] : i \in 1..Len(s)}
 
 \* ---------------------------------------------------------------- one step --
-Arity(r) == IF r.t = "split" THEN 2 ELSE 1
-Hit(c, r) == c.f = r.from /\ Len(c.args) = Arity(r) /\ (r.t = "renlit" => c.args = <<0>>)
-Matches(file, r) == (r.guard = "" \/ r.guard = file.pkg) /\ \E i \in 1..Len(file.body) : Hit(file.body[i], r)
-RECURSIVE RewriteBody(_, _, _)
-RewriteBody(b, r, i) ==
-  IF i > Len(b) THEN <<>>
-  ELSE (IF ~Hit(b[i], r) THEN <<b[i]>>
-        ELSE IF r.t = "split" THEN <<[f |-> r.to, args |-> <<b[i].args[1]>>], [f |-> r.to, args |-> <<b[i].args[2]>>]>>
-        ELSE <<[f |-> r.to, args |-> b[i].args]>>) \o RewriteBody(b, r, i + 1)
+Arity(r) == IF r.t \in {"split", "dup", "lit2"} THEN 2 ELSE 1
+Hit(c, r) == /\ c.f = r.from /\ Len(c.args) = Arity(r)
+             /\ (r.t = "renlit" => c.args = <<Lit(0)>>)
+             /\ (r.t = "dup" => c.args[1] = c.args[2])
+             /\ (r.t = "lit2" => c.args[2] = Lit(1))
+Build(c, r) == IF r.t = "split" THEN Call("pair", <<Call(r.to, <<c.args[1]>>), Call(r.to, <<c.args[2]>>)>>)
+               ELSE IF r.t \in {"dup", "lit2"} THEN Call(r.to, <<c.args[1]>>)
+               ELSE Call(r.to, c.args)
+RECURSIVE HasInstance(_, _)
+HasInstance(t, r) == ~IsLeaf(t) /\ (Hit(t, r) \/ \E i \in 1..Len(t.args) : HasInstance(t.args[i], r))
+RECURSIVE NestedInstance(_, _)
+NestedInstance(t, r) == /\ ~IsLeaf(t)
+                        /\ IF Hit(t, r) THEN \E i \in 1..Len(t.args) : HasInstance(t.args[i], r)
+                           ELSE \E i \in 1..Len(t.args) : NestedInstance(t.args[i], r)
+RECURSIVE RewriteTerm(_, _)
+RewriteTerm(t, r) == IF IsLeaf(t) THEN t
+                     ELSE IF Hit(t, r) THEN Build(t, r)
+                     ELSE [t EXCEPT !.args = [i \in 1..Len(t.args) |-> RewriteTerm(t.args[i], r)]]
+\* a statement pattern sees the statements only, an expression pattern every call
+Sees(c, r) == IF r.t = "sren" THEN ~IsLeaf(c) /\ Hit(c, r) ELSE HasInstance(c, r)
+Matches(file, r) == (r.guard = "" \/ r.guard = file.pkg) /\ \E i \in 1..Len(file.body) : Sees(file.body[i], r)
 \* a statement pattern rewrites the first instance in a block (all calls of a file are in one block)
 FirstHit(b, r) == CHOOSE i \in 1..Len(b) : Hit(b[i], r) /\ \A j \in 1..(i - 1) : ~Hit(b[j], r)
 Rewrite(file, r) ==
   [pkg |-> IF r.newpkg = "" THEN file.pkg ELSE r.newpkg,
    body |-> IF r.t = "sren"
-            THEN [i \in 1..Len(file.body) |-> IF i = FirstHit(file.body, r) THEN [f |-> r.to, args |-> file.body[i].args] ELSE file.body[i]]
-            ELSE RewriteBody(file.body, r, 1)]
+            THEN [i \in 1..Len(file.body) |-> IF i = FirstHit(file.body, r) THEN Call(r.to, file.body[i].args) ELSE file.body[i]]
+            ELSE [i \in 1..Len(file.body) |-> RewriteTerm(file.body[i], r)]]
+\* no instance of the change inside another instance of it (see the head comment)
+Flat(file, r) == r.t = "sren" \/ \A i \in 1..Len(file.body) : ~NestedInstance(file.body[i], r)
 
 \* ---------------------------------------------------------------- P-layer --
 \* one run per change: [ok, file]
@@ -87,6 +122,13 @@ ChainFrom(file, rs, k) ==
 \* the combined run must give: the chain's final file, or (a step failed) the failure and the original file
 Chain(file, rs) == LET c == ChainFrom(file, rs, 1) IN IF c.ok THEN c ELSE [ok |-> FALSE, file |-> file]
 
+\* every change of the sequence meets a file without nested instances of itself
+RECURSIVE WellFormedRunFrom(_, _, _)
+WellFormedRunFrom(ff, rr, j) ==
+  IF j > Len(rr) THEN TRUE
+  ELSE Flat(ff, rr[j]) /\ (IF RunOne(ff, rr[j]).ok THEN WellFormedRunFrom(RunOne(ff, rr[j]).file, rr, j + 1) ELSE TRUE)
+WellFormedRun(ff, rr) == WellFormedSeq(rr) /\ WellFormedRunFrom(ff, rr, 1)
+
 \* ---------------------------------------------------------------- I-layer --
 VARIABLES file0, rules, cur, k, st, log
 vars == <<file0, rules, cur, k, st, log>>
@@ -94,6 +136,7 @@ vars == <<file0, rules, cur, k, st, log>>
 Init == /\ file0 \in Files
         /\ rules \in {rs \in UNION {[1..n -> Rules] : n \in 1..MaxChanges} : WellFormedSeq(rs)}
         /\ cur = file0 /\ k = 1 /\ st = "run" /\ log = <<>>
+        /\ WellFormedRun(file0, rules)
 
 \* c.Match(f) on the current tree; then c.Replace
 ApplyChange ==
